@@ -418,8 +418,11 @@ def flat_job(job):
             return out
         pos = [k for k, e in enumerate(N.exprs) if e is X][0]
         # the flat sequence of the theorem: N's own list with X replaced by X's (streamlined) list
-        F = pp.And(list(N.exprs[:pos]) + list(X.exprs) + list(N.exprs[pos + 1:]))
-        F.streamline()
+        # = { N with exprs := flat list } (a shallow copy: same flags as N, as in the theorem)
+        import copy as _copy
+        F = _copy.copy(N)
+        F.exprs = list(N.exprs[:pos]) + list(X.exprs) + list(N.exprs[pos + 1:])
+        F._defaultName = None
         if corr_parse.nullable_rep(pp, N) or corr_parse.nullable_rep(pp, F):
             return out
         nodes, (ri, rj), ids, _ = gram.extract_multi(b, [N, F])
@@ -541,6 +544,14 @@ PURE_OPS = [("+", 8), ("-", 2), ("|", 6), ("^", 3), ("&", 2), ("~", 2), ("*", 3)
             ("FollowedBy", 1), ("Combine", 1), ("Located", 1), ("DelimitedList", 1)]
 
 
+def _flat(x):
+    if isinstance(x, (list, tuple)):
+        return [z for y in x for z in _flat(y)]
+    if isinstance(x, dict):
+        return [z for y in x.values() for z in _flat(y)]
+    return [x]
+
+
 def compose_steps(rng, pg, n_steps):
     """pure composition statements over the pool of `pg` (symbolic); returns (statements, copies, targets)
     copies: (new var, original var, named?) ; targets: vars used in positions that are never streamlined"""
@@ -548,6 +559,7 @@ def compose_steps(rng, pg, n_steps):
     pool = list(pg.pool)
     nullable = {v: (I[v].nullable if v in I and I[v] is not None else True) for v in pool}
     cnt = [0]
+    has_each = set()   # region of the registered finding each_copy_keeps_cached_groups: never copied / lw'ed
 
     def fresh():
         cnt[0] += 1
@@ -568,7 +580,20 @@ def compose_steps(rng, pg, n_steps):
         sts.append(st)
         pool.append(st[0])
         nullable[st[0]] = nul
+        if st[1] == "&" or any(isinstance(x, str) and x in has_each for x in _flat(st[2:])):
+            has_each.add(st[0])
         return st[0]
+
+    def pick_no_each():
+        for _ in range(30):
+            v = pick()
+            if v not in has_each:
+                return v
+        v = fresh()
+        sts.append([v, "Literal", "b"])
+        pool.append(v)
+        nullable[v] = False
+        return v
 
     for _ in range(n_steps):
         op = gen._weighted(rng, PURE_OPS)
@@ -599,15 +624,15 @@ def compose_steps(rng, pg, n_steps):
             a, b = pick(), pick()
             add([v, "...", a, b], False)
         elif op in ("copy", "call"):
-            a = pick()
+            a = pick_no_each()
             copies.append((v, a, False))
             add([v, op, a], nullable[a])
         elif op == "name":
-            a = pick()
+            a = pick_no_each()
             copies.append((v, a, True))
             add([v, "name", a, rng.choice(["n1", "n2", "n3*"])], nullable[a])
         elif op == "set_results_name":
-            a = pick()
+            a = pick_no_each()
             copies.append((v, a, True))
             add([v, "set_results_name", a, rng.choice(["n1", "n4"]), rng.random() < 0.5], nullable[a])
         elif op in ("Opt", "Group", "Suppress", "FollowedBy", "Located"):
@@ -633,7 +658,7 @@ def compose_steps(rng, pg, n_steps):
         elif op in ("lw", "iw"):
             # a FRESH composite is built and then mutated in place by its own documented method; its operands
             # (shared pool members) must not change
-            a, b = pick(), pick()
+            a, b = pick_no_each(), pick_no_each()
             kind = rng.choice(["+", "|", "Group1", "Opt1"])
             if kind in ("+", "|"):
                 add([v, kind, a, b], nullable[a] and nullable[b] if kind == "+" else nullable[a] or nullable[b])
@@ -994,6 +1019,17 @@ def witness_savelist(pp):
     return before, after
 
 
+def witness_each_copy(pp):
+    """Each caches its expression groups at the first parse; copy() keeps the cache, so a copy of a USED Each parses
+    with the original's children whatever is done to the copy's own (here: leave_whitespace)"""
+    def mk(used):
+        E = pp.Word("a") & pp.Word("b")
+        if used:
+            outcome(pp, E, "a b")
+        return E.copy().leave_whitespace()
+    return outcome(pp, mk(False), " a b"), outcome(pp, mk(True), " a b")
+
+
 WITNESSES = [
     ("pending_skip_rewrites_shared_operand", witness_pending_skip,
      "x2 = e + 'd' with e = Literal('a') + (Literal('b') + ...) on 'a b zz d', fresh vs after x1 = e + 'c' was used"),
@@ -1003,6 +1039,8 @@ WITNESSES = [
      "F = Forward(); C = F.copy(); F <<= Word('a').leave_whitespace(); F vs C on ' a'"),
     ("streamline_recomputes_saveAsList", witness_savelist,
      "e = (Word('a') + Word('b')) | LineEnd(); Opt(e)('n').parse_string('\\n').as_dict() built before vs after e.parse_string('a b')"),
+    ("each_copy_keeps_cached_groups", witness_each_copy,
+     "E = Word('a') & Word('b'); E.copy().leave_whitespace() on ' a b': ParseException(0) if E was never used, ['a','b'] if E had parsed before"),
     ("copy_resets_whitechars", witness_copy_whitechars,
      "A = LineStart() + 'b'; A.scan_string('a\\n\\nb') reports the match at 2, A.copy().scan_string at 3"),
 ]
